@@ -10,11 +10,14 @@ package verifforge
 import (
 	"bytes"
 	"context"
+	"crypto/sha256"
 	"fmt"
 	mrand "math/rand/v2"
 	"os"
 	"testing"
 
+	"github.com/celestiaorg/celestia-app/v9/pkg/appconsts"
+	"github.com/celestiaorg/celestia-app/v9/pkg/wrapper"
 	libshare "github.com/celestiaorg/go-square/v4/share"
 	"github.com/celestiaorg/nmt"
 	"github.com/celestiaorg/rsmt2d"
@@ -445,9 +448,80 @@ func (f *vsF) forgeRND(cur shwap.RowNamespaceData, ns libshare.Namespace, r int)
 	return cur, false
 }
 
+// fabricatedAbsence builds, for extended row r, a well-formed nmt absence proof whose witness is the
+// leaf at index witness (0, or the first parity leaf). nmt accepts such a proof for any namespace that
+// sorts below the first leaf resp. above the last data leaf - namespaces the row does not cover.
+func (f *vsF) fabricatedAbsence(r, witness int) *nmt.Proof {
+	row := f.rowShares(f.a, r)
+	tree := wrapper.NewErasuredNamespacedMerkleTree(uint64(f.w), uint(r))
+	tree.SetTree(nmt.New(appconsts.NewBaseHashFunc(), nmt.NamespaceIDSize(libshare.NamespaceSize), nmt.IgnoreMaxNamespace(true)))
+	for _, sh := range row {
+		if err := tree.Push(sh.ToBytes()); err != nil {
+			panic(err)
+		}
+	}
+	if _, err := tree.Root(); err != nil {
+		panic(err)
+	}
+	incl, err := tree.ProveRange(witness, witness+1)
+	if err != nil {
+		panic(err)
+	}
+	prefix := row[witness].Namespace().Bytes()
+	if witness >= f.w {
+		prefix = libshare.ParitySharesNamespace.Bytes()
+	}
+	leaf := append(append([]byte{}, prefix...), row[witness].ToBytes()...)
+	lh, err := nmt.NewNmtHasher(sha256.New(), libshare.NamespaceSize, true).HashLeaf(leaf)
+	if err != nil {
+		panic(err)
+	}
+	p := nmt.NewAbsenceProof(witness, witness+1, incl.Nodes(), lh, true)
+	return &p
+}
+
 func (f *vsF) rowND() {
 	s := f.s
 	nc := f.pickNamespace()
+	if s.Chance(1, 5, "fabricated_absence") {
+		// an absence proof fabricated for a row whose namespace range does not cover the namespace
+		covered := map[int]bool{}
+		for _, r := range nc.rows {
+			covered[r] = true
+		}
+		var cand []int
+		for r := 0; r < f.w; r++ {
+			if !covered[r] {
+				cand = append(cand, r)
+			}
+		}
+		if len(cand) == 0 {
+			return
+		}
+		r := cand[s.Choose(len(cand), "row")]
+		row := f.rowShares(f.a, r)
+		witness := 0
+		if bytes.Compare(nc.ns.Bytes(), row[0].Namespace().Bytes()) > 0 {
+			witness = f.w
+		}
+		f.step("absence-proof-fabricated-for-a-row-that-does-not-cover-the-namespace")
+		forged := shwap.RowNamespaceData{Proof: f.fabricatedAbsence(r, witness)}
+		got := forged
+		if s.Chance(1, 2, "over_the_wire") {
+			var buf bytes.Buffer
+			if _, err := forged.WriteTo(&buf); err != nil {
+				return
+			}
+			got = shwap.RowNamespaceData{}
+			if _, err := got.ReadFrom(&buf); err != nil {
+				return
+			}
+		}
+		if got.Verify(f.a.Roots, nc.ns, r) == nil {
+			s.ViolateP("C02", "c02-forged-answer-accepted", "rownd-absence-outside-range", "a fabricated proof of absence for namespace %x verifies against row %d, whose namespace range does not cover it (namespace present in rows %v); forgery %v", nc.ns.ID(), r, nc.rows, f.log)
+		}
+		return
+	}
 	if len(nc.rows) == 0 {
 		// outside every row's range: no row may serve a verifying answer for it
 		r := f.rng.IntN(2 * f.w)
